@@ -188,8 +188,8 @@ def validate(ctx, recs, tag, chunk=150):
 def run(ctx):
     quick = ctx.quick
     rng = np.random.default_rng(ctx.seed)
-    n_small = 120 if quick else 1500
-    n_large = 40 if quick else 400
+    n_small = 120 if quick else 5000
+    n_large = 40 if quick else 1500
     small = [ic.random_instance(rng, H=7, W=7, interior=3) for _ in range(n_small)]
     large = [ic.random_instance(rng, H=9, W=9, interior=5, max_sub=3,
                                 kshapes=((3, 3), (3, 5), (5, 3), (5, 5), (1, 5), (5, 1))) for _ in range(n_large)]
@@ -205,9 +205,9 @@ def run(ctx):
             bases.append(base)
     # TLC: design-level theorems on the instance family (with the implementation's own mapping matrices)
     f = ctx.work / "insts.json"
-    f.write_text(json.dumps(bases[:n_small]))
+    f.write_text(json.dumps(bases[: min(n_small, 2000)]))
     ctx.tlc("NormalEq", CFG_MC, env={"INST_FILE": str(f)}, tag="MC_NormalEq", timeout=1700)
-    ndel = 24 if quick else 300
+    ndel = 24 if quick else 1500
     ctx.bounds["delaunay_pairs"] = ndel
     dseeds = [int(x) for x in rng.integers(0, 2 ** 31 - 1, size=ndel)]
     for part in core.pmap(_del_many, [dseeds[k : k + 2] for k in range(0, ndel, 2)]):
